@@ -22,6 +22,24 @@ def families(rng):
         add('inherit-from ' + v, 'let v = %s;\ntry { class A : v {} } catch e: Error { print("c"); }\nprint("end");\n' % v)
         add('catch-class ' + v, 'let v = %s;\ntry { try { raise Error("x"); } catch e: v { print("no"); } } catch e2: Error { print("c"); }\n' % v)
         add('interp ' + v, 'let v = %s;\ntry { print("a${v}b".len() > 0); } catch e: Error { print("c"); }\n' % v)
+    # ---- the same wrong-kind values reaching the instruction through a captured (boxed) local, and a wider zoo ------
+    zoo2 = ['nil', 'true', '1', '"s"', '[1]', '(1,)', '{"a": 1}', 'chan(1)', '[1].iter()', 'Error("x")', 'print', '|| 1',
+            'zf', 'ZI()', '[1].push', 'ZI().m', 'ZI.sm', 'zf.call']
+    zpre = 'class ZI { m() { 1 } static sm() { 2 } describe() { "zi" } }\nfn zf() { return ZI(); }\n'
+    for v in zoo2:
+        add('inherit-boxed-super ' + v, zpre + 'fn ext(base) {\n  class D : base { describe() { return "d " + super.describe(); } }\n  return D;\n}\n'
+            'try { let k = ext(%s); print("made"); try { print(k().describe()); } catch e: Error { print("c2"); } } catch e: Error { print("c"); }\nprint("end");\n' % v)
+        add('inherit-module-super ' + v, zpre + 'let v = %s;\ntry { class D : v { describe() { return super.describe(); } m2() { return || super.describe(); } }\n print("made"); } catch e: Error { print("c"); }\nprint("end");\n' % v)
+        add('inherit-local-plain ' + v, zpre + 'fn t() { let v = %s; try { class D : v {} print("made"); } catch e: Error { print("c"); } }\nt();\nprint("end");\n' % v)
+        add('boxed-ops ' + v, zpre + 'fn t() {\n  let v = %s;\n  let keep = || v;\n'
+            '  try { v(); print("called"); } catch e: Error { print("c1"); }\n'
+            '  try { raise v; } catch e: Error { print("c2"); }\n'
+            '  try { print(v.nothing); } catch e: Error { print("c3"); }\n'
+            '  try { v[0]; print("indexed"); } catch e: Error { print("c4"); }\n'
+            '  try { for x in v { break; } print("iterated"); } catch e: Error { print("c5"); }\n'
+            '  try { try { raise Error("x"); } catch e: v { print("no"); } } catch e2: Error { print("c6"); }\n'
+            '  try { print(<- v); } catch e: Error { print("c7"); }\n'
+            '  return keep;\n}\nt();\nprint("end");\n' % v)
     # ---- built-in subclassing (D9) and constructing builtins -----------------
     for b in ['List', 'String', 'Map', 'Tuple', 'Number', 'Bool', 'Nil', 'Iter', 'Fun', 'Closure', 'Method', 'Native',
               'Class', 'Channel', 'Module', 'Object', 'Error']:
@@ -59,6 +77,9 @@ def families(rng):
         'super': 'class A { go(n) { return self.go(n + 1); } }\nclass B : A { go(n) { return super.go(n + 1); } }\nlet f = B().go;\n',
     }
     for name, pre in rec.items():
+        add('recursion-wrapped ' + name, pre + 'fn w1(n) { return f(n); }\nfn w2(n) { return w1(n); }\n'
+            'try { w1(0); print("returned"); } catch e: Error { print("caught overflow"); }\n'
+            'try { w2(0); print("returned"); } catch e: Error { print("caught overflow"); }\nprint("end");\n')
         add('recursion ' + name, pre + 'try { f(0); print("returned"); } catch e: Error { print("caught overflow"); }\nprint("between");\nf(0);\nprint("unreachable?");\n')
         add('recursion-in-fiber ' + name, pre + 'let done = chan(1);\nfn w() { try { f(0); } catch e: Error { print("caught in fiber"); } done <- 1; }\nlaunch w();\n<- done;\nprint("end");\n')
         add('recursion-then-work ' + name, pre + 'for i in 3.times() { try { f(0); } catch e: Error { print("c", i); } }\nlet l = [];\nfor i in 50.times() { l.push([i, "s${i}"]); }\nprint(l.len());\n')
